@@ -394,6 +394,10 @@ class RecorderPolicy(RepoPolicy):
         return False
 
     def subscript_raises(self, node, frame):
+        # an entry of a recording's metadata may be missing (recording stored through the cassette API, older version, ...)
+        v = node.value
+        if isinstance(v, ast.Call) and isinstance(v.func, ast.Attribute) and v.func.attr == 'get_metadata':
+            return frozenset({self.excm.atom_of('KeyError')})
         return frozenset()
 
     def iter_raises(self, node, frame):
